@@ -82,13 +82,14 @@ def struct_eq(ev, st, a, b, depth=0):
         atoms = []
         if adt["kind"] == "enum":
             atoms.append(("deq", ("discr", b), ev.discr_of(a[1], a[2])))
-            base = ("proj", b, ("downcast", a[2], a[3]))
+            base = ev.project(st, b, ("downcast", a[2], a[3]))
         else:
             base = b
         vdef = [v for v in adt["variants"] if v["idx"] == a[2]][0]
         for i, x in enumerate(a[4]):
             fty = vdef["fields"][i]["ty"]["s"] if i < len(vdef["fields"]) else "?"
-            atoms.append(struct_eq(ev, st, x, ("proj", base, ("field", i, fty)), depth + 1))
+            # spelled through the evaluator's own projection, so that `x == Some(..)` and `match x { Some(..) }` talk about the same terms
+            atoms.append(struct_eq(ev, st, x, ev.project(st, base, ("field", i, fty)), depth + 1))
         return conj(atoms)
     if a[0] == "int" or b[0] == "int":
         if b[0] != "int":
@@ -201,8 +202,10 @@ class Models:
         R(r"^core::slice::<impl \[T\]>::chunks$", lambda ci: ("iter", "chunks", ci.deref(ci.args[0]), ci.args[1]), "slice::chunks(n): consecutive non-overlapping chunks of n elements, last one shorter")
         R(r"^core::iter::traits::iterator::Iterator::(copied|cloned)$", lambda ci: ("iter", "copied", ci.args[0]), "Iterator::copied / cloned: the same items by value")
         R(r"^core::slice::<impl \[T\]>::chunks_exact$", lambda ci: ("iter", "chunks_exact", ci.deref(ci.args[0]), ci.args[1]), "slice::chunks_exact(n): the chunks of exactly n elements (a shorter tail is left out)")
+        R(r"^<T as core::convert::TryInto<U>>::try_into$|^core::array::<impl core::convert::TryFrom<&'a \[T\]> for &'a \[T; N\]>::try_from$", m_try_into, "TryInto/TryFrom: &[T] -> &[T; N] is Ok(the same elements) iff len == N; unsigned ints as TryFrom")
         R(r"impl core::convert::TryFrom<usize> for u(8|16|32)>::try_from$|impl core::convert::TryFrom<u(16|32|64)> for u(8|16|32)>::try_from$", m_try_from, "TryFrom between unsigned ints: Ok(value) iff it fits the target type")
         R(r"^core::iter::traits::iterator::Iterator::enumerate$", lambda ci: ("iter", "enumerate", ci.args[0]), "Iterator::enumerate pairs items with 0,1,2,…")
+        R(r"^core::iter::traits::iterator::Iterator::flat_map$", lambda ci: ("iter", "flat_map", ci.args[0], ci.args[1]), "Iterator::flat_map(f): the items of f(x) for each item x, in order")
         R(r"^core::iter::traits::iterator::Iterator::map$", lambda ci: ("iter", "map", ci.args[0], ci.args[1]), "Iterator::map applies f to each item")
         R(r"^core::iter::sources::once::once$", lambda ci: ("iter", "once", ci.args[0]), "iter::once yields exactly one item")
         R(r"^core::iter::traits::iterator::Iterator::collect$", lambda ci: ("app", "collect:" + ci._sub(ci.dest["ty"]), (ci.args[0],)), "Iterator::collect::<Vec<_>> gathers all items in order")
@@ -211,6 +214,7 @@ class Models:
         R(r"^core::slice::<impl \[T\]>::iter_mut$", lambda ci: ("iter", "slice_mut", ci.deref(ci.args[0])), "slice::iter_mut yields &mut to the elements in order")
         R(r"^core::iter::traits::iterator::Iterator::for_each$|as core::iter::traits::iterator::Iterator>::for_each$", m_for_each, "Iterator::for_each calls the closure on every item")
         R(r"as core::iter::traits::collect::IntoIterator>::into_iter$|^core::iter::traits::collect::IntoIterator::into_iter$", m_into_iter, "IntoIterator for iterators is identity; for &Vec / &mut Vec it is slice iteration")
+        R(r"as core::iter::traits::iterator::Iterator>::find_map$|^core::iter::traits::iterator::Iterator::find_map$", m_find_map, "Iterator::find_map(f): f on each item in order, stops at and returns the first Some; None when exhausted")
         R(r"as core::iter::traits::iterator::Iterator>::next$|^core::iter::traits::iterator::Iterator::next$", m_iter_next, "Iterator::next: Some(item) or None")
         R(r"^core::clone::Clone::clone$", lambda ci: ci.deref(ci.args[0]), "Clone::clone yields an equal value")
         R(r"^core::num::<impl u\d+>::wrapping_(add|sub|mul)$", m_wrapping, "uN::wrapping_* : arithmetic mod 2^N")
@@ -225,6 +229,9 @@ class Models:
         R(r"^core::time::Duration::from_micros$", lambda ci: dur(ci.args[0], 0.001), "Duration::from_micros")
         R(r"^core::time::Duration::from_nanos$", lambda ci: dur(ci.args[0], 0.000001), "Duration::from_nanos")
         R(r"^core::time::Duration::new$", lambda ci: ("app", "duration_ms", (mk_int(ci.args[0][1] * 1000 + ci.args[1][1] // 1000000, "u64"),)) if ci.args[0][0] == "int" and ci.args[1][0] == "int" else ("app", "duration_new", tuple(ci.args)), "Duration::new(secs, nanos)")
+        R(r"^core::time::Duration::is_zero$", m_dur_is_zero, "Duration::is_zero")
+        R(r"^core::option::Option::<core::result::Result<T, E>>::transpose$", m_transpose, "Option<Result<T,E>>::transpose: None => Ok(None), Some(Ok(x)) => Ok(Some(x)), Some(Err(e)) => Err(e)")
+        R(r"^core::result::Result::<T, E>::and_then$", m_and_then, "Result::and_then: Ok(v) => f(v), Err(e) => Err(e)")
         R(r"^core::hint::must_use$", lambda ci: ci.args[0], "hint::must_use is the identity")
         R(r"^log::max_level$", lambda ci: ("loglevel",), "log::max_level(): the global maximum level (analysed at both extremes)")
         R(r"^core::cmp::PartialOrd::le$", m_le, "PartialOrd::le; Level <= max_level decided by the engine's log setting")
@@ -238,6 +245,7 @@ class Models:
         R(r"^regex::regex::bytes::Regex::new$", lambda ci: ok(ci.ev, ("app", "regex", (ci.args[0],))), "Regex::new (literal validated by A6)")
         R(r"^regex::regex::bytes::Regex::captures$", lambda ci: ("app", "captures", (ci.deref(ci.args[0]), ci.deref(ci.args[1]))), "Regex::captures: Some(caps) iff the regex matches")
         R(r"^regex::regex::bytes::Captures::<'h>::name$", lambda ci: ("app", "group", (deref_all(ci, ci.args[0]), deref_all(ci, ci.args[1]))), "Captures::name: the named group's match, if it participated")
+        R(r"^<regex::regex::bytes::Captures<'h> as core::ops::index::Index<&'n str>>::index$", m_captures_index, "Captures[name]: name(..).unwrap().as_bytes() (panics when the group did not participate)")
         R(r"^regex::regex::bytes::Match::<'h>::as_bytes$", lambda ci: ("ref", ("val", ("app", "match_bytes", (ci.deref(ci.args[0]) if ci.args[0][0] == "ref" else ci.args[0],)), ()), False), "Match::as_bytes: the matched bytes")
         R(r"^core::str::converts::from_utf8$", lambda ci: ("app", "from_utf8", (ci.deref(ci.args[0]),)), "str::from_utf8")
         R(r"^num_traits::Num::from_str_radix$", lambda ci: ("app", "from_str_radix:" + ci.orig_targs()[0], (ci.deref(ci.args[0]) if ci.args[0][0] == "ref" else ci.args[0], ci.args[1])), "Num::from_str_radix(s, radix) for primitive ints = <int>::from_str_radix")
@@ -451,6 +459,12 @@ def m_into(ci):
     return ("app", "into:" + dty, (x,))
 
 
+def m_captures_index(ci):
+    g = ("app", "group", (deref_all(ci, ci.args[0]), deref_all(ci, ci.args[1])))
+    ci.st.emit(("unwrap", g, ci.w))
+    return ("ref", ("val", ("app", "match_bytes", (("unwrap", g),)), ()), False)
+
+
 def m_unwrap(ci):
     x = ci.args[0]
     if x[0] == "adt":
@@ -534,9 +548,33 @@ def m_opt_comb(ci):
     return ("fork", [([(d, 1)], lazy_some), ([(d, 0)], lazy_none)])
 
 
-def m_try_from(ci):
+def m_try_into(ci):
+    ta = ci.targs()
+    dst = ta[-1] if ci.name.endswith("try_into") else None
+    if dst is None:
+        m0 = re.search(r"Result<(&\[[^;\]]+; \d+\])", ci.dest["ty"])
+        dst = m0.group(1) if m0 else ""
+    m = re.match(r"^&(?:'\w+ )?\[(.+); (\d+)\]$", dst)
+    x = ci.args[0]
+    if m and x[0] == "ref":
+        n = int(m.group(2))
+        sl = ci.ev.load(ci.st, x[1])
+        ln = len_term(sl)
+        c = ("app", "Eq", (ln, mk_int(n, "usize")))
+        kn = (1 if ln[1] == n else 0) if ln[0] == "int" else ci.ev.decide(ci.st, c)
+        e = err(ci.ev, ("sym", "TryFromSliceError", "core::array::TryFromSliceError"))
+        if kn is not None:
+            return ok(ci.ev, x) if kn else e
+        return ("fork", [([(c, 1)], ok(ci.ev, x)), ([(c, 0)], e)])
+    m = re.match(r"^u(8|16|32)$", dst)
+    if m and re.match(r"^u(16|32|64|size)$", ta[0]):
+        return m_try_from(ci, int(m.group(1)))
+    return None
+
+
+def m_try_from(ci, bits=None):
     m = re.search(r"for u(8|16|32)>::try_from$", ci.name)
-    bits = int(m.group(1))
+    bits = bits or int(m.group(1))
     ty = "u%d" % bits
     x = ci.args[0]
     mx = (1 << bits) - 1
@@ -576,6 +614,39 @@ def m_res_comb(ci):
     return x
 
 
+def m_dur_is_zero(ci):
+    d = ci.deref(ci.args[0]) if ci.args[0][0] == "ref" else ci.args[0]
+    if d[0] == "app" and d[1] in ("duration_ms", "duration_us") and d[2][0][0] == "int":
+        return TRUE if d[2][0][1] == 0 else FALSE
+    return ("app", "is_zero", (d,))
+
+
+def m_transpose(ci):
+    x = ci.args[0]
+    ev = ci.ev
+    if x[0] == "adt":
+        if x[3] == "None":
+            return ok(ev, none(ev))
+        r = x[4][0]
+        if r[0] == "adt":
+            return ok(ev, some(ev, r[4][0])) if r[3] == "Ok" else err(ev, r[4][0])
+        d = ("discr", r)
+        return ("fork", [([(d, 0)], ok(ev, some(ev, ("unwrap", r)))), ([(d, 1)], err(ev, ("proj", ("proj", r, ("downcast", 1, "Err")), ("field", 0, "?"))))])
+    return None
+
+
+def m_and_then(ci):
+    x, f = ci.args
+    ev = ci.ev
+    if x[0] == "adt":
+        if x[3] == "Ok":
+            return apply_closure(ci, f, [x[4][0]], multi=lambda v: v)
+        return x
+    d = ("discr", x)
+    erv = ("proj", ("proj", x, ("downcast", 1, "Err")), ("field", 0, "?"))
+    return ("fork", [([(d, 0)], lambda ci2: apply_closure(ci2, f, [("unwrap", x)], multi=lambda v: v)), ([(d, 1)], err(ev, erv))])
+
+
 def m_bool_then(ci):
     b = ci.args[0]
     ev = ci.ev
@@ -588,14 +659,15 @@ def m_bool_then(ci):
     if b[0] == "int":
         if not b[1]:
             return none(ev)
+        if which == "then":
+            return apply_closure(ci, ci.args[1], [], multi=lambda v: some(ev, v))
         v = val()
         return some(ev, v) if v is not None else None
     if which == "then_some":
         return ("fork", [([(b, 1)], some(ev, ci.args[1])), ([(b, 0)], none(ev))])
 
     def on_true(ci2):
-        v = apply_closure(ci2, ci.args[1], [])
-        return some(ci2.ev, v) if v is not None else None
+        return apply_closure(ci2, ci.args[1], [], multi=lambda v: some(ci2.ev, v))
     return ("fork", [([(b, 1)], on_true), ([(b, 0)], none(ev))])
 
 
@@ -758,31 +830,93 @@ def m_for_each(ci):
 
 
 def m_into_iter(ci):
-    x = ci.args[0]
+    return m_into_iter_value(ci, ci.args[0])
+
+
+def m_into_iter_value(ci, x):
     if x[0] == "iter":
         return x
     if x[0] == "adt" and x[1].endswith("ops::range::Range"):
         return x   # impl<I: Iterator> IntoIterator for I: a Range is its own iterator
+    if x[0] in ("array", "bytes"):
+        return ("iter", "array", x)      # [T; N]::into_iter yields the elements by value, in order
     if x[0] == "ref":
         return ("iter", "slice", ci.ev.load(ci.st, x[1]))
     return ("iter", "into", x)
 
 
+def concrete_step(ci, it):
+    """(first item, iterator over the rest) | ("end",) for an iterator whose length is a known small constant, else None.
+    A loop over such an iterator is executed iteration by iteration instead of being widened (mireval.arrive_loop_header)."""
+    if it[0] == "adt" and it[1].endswith("ops::range::Range") and len(it[4]) == 2 and it[4][0][0] == "int" and it[4][1][0] == "int":
+        lo, hi = it[4]
+        if hi[1] - lo[1] > 32:
+            return None
+        if lo[1] >= hi[1]:
+            return ("end",)
+        return (lo, ("adt", it[1], it[2], it[3], (mk_int(lo[1] + 1, lo[2]), hi)))
+    if it[0] != "iter":
+        return None
+    if it[1] in ("slice", "array"):
+        v = it[2]
+        byref = it[1] == "slice"
+        wrap = (lambda e: ("ref", ("val", e, ()), False)) if byref else (lambda e: e)
+        if v[0] == "app" and v[1] == "subslice" and v[2][1][0] == "int" and v[2][2][0] == "int":
+            base, lo, hi = v[2]
+            if hi[1] - lo[1] > 32:
+                return None
+            if lo[1] >= hi[1]:
+                return ("end",)
+            from mireval import index_term
+            return (wrap(index_term(base, lo)), ("iter", it[1], ("app", "subslice", (base, mk_int(lo[1] + 1, "usize"), hi))))
+        if v[0] == "bytes" and len(v[1]) <= 32:
+            if not v[1]:
+                return ("end",)
+            return (wrap(mk_int(v[1][0], "u8")), ("iter", it[1], ("bytes", v[1][1:])))
+        if v[0] == "array" and len(v[1]) <= 32:
+            if not v[1]:
+                return ("end",)
+            return (wrap(v[1][0]), ("iter", it[1], ("array", v[1][1:])))
+        return None
+    if it[1] in ("copied", "cloned"):
+        r = concrete_step(ci, it[2])
+        if r is None or r == ("end",):
+            return r
+        e = r[0]
+        return (ci.ev.load(ci.st, e[1]) if e[0] == "ref" else e, ("iter", it[1], r[1]))
+    return None
+
+
 def m_iter_next(ci):
     ev = ci.ev
     it = ci.deref(ci.args[0])
+    cs = concrete_step(ci, it) if ci.args[0][0] == "ref" else None
+    if cs is not None:
+        if cs == ("end",):
+            return none(ev)
+        ev.store(ci.st, ci.args[0][1], cs[1], ci.w)
+        return some(ev, cs[0])
     n = ci.st.aux.get("next_count", 0)
-    item = ("item", it, ci.w.split(" ")[0])
-    # exactly-one iterators
-    if it[0] == "iter" and it[1] == "once":
-        pass
-    if it[0] == "iter" and it[1] == "enumerate":
-        item = ("tuple", (("item_index", it), ("item", it[2], ci.w.split(" ")[0])))
+    site = ci.w.split(" ")[0]
+    item = ("item", it, site)
     extra = []
-    inner = it[2] if (it[0] == "iter" and it[1] == "enumerate") else it
+    src = it
+    if it[0] == "iter" and it[1] == "flat_map":
+        # the items of flat_map(f) are the items of f(x) for the items x of the outer iterator, in order: the generic
+        # item is the generic item of f(generic outer item); f must be pure and single-path
+        sub_it = apply_closure(ci, it[3], [("item", it[2], site)])
+        if sub_it is None:
+            return None
+        if not (isinstance(sub_it, tuple) and sub_it and sub_it[0] == "iter"):
+            sub_it = m_into_iter_value(ci, sub_it)
+        src = sub_it
+        item = ("item", src, site)
+    if src[0] == "iter" and src[1] == "enumerate":
+        item = ("tuple", (("item_index", src), ("item", src[2], site)))
+    inner = src[2] if (src[0] == "iter" and src[1] == "enumerate") else src
     if inner[0] == "iter" and inner[1] in ("chunks", "chunks_exact") and inner[3][0] == "int":
         # slice::chunks(n): every chunk has between 1 and n elements (core::slice::chunks docs)
-        ch = ("item", inner, ci.w.split(" ")[0])
+        ch = ("item", inner, site)
         ln = ("len", ("proj", ch, ("deref",)))
         extra = [(("app", "Le", (ln, inner[3])), 1), (("app", "Ge", (ln, mk_int(1, "usize"))), 1)]
     d = ("app", "has_next", (it, mk_int(n, "usize")))
@@ -793,7 +927,57 @@ def m_iter_next(ci):
         item = ("item", it, ci.w.split(" ")[0], n)
         facts.append((("app", "Lt", (item, it[4][1])), 1))
         facts.append((("app", "Ge", (item, it[4][0])), 1))
-    return ("fork", [(facts, some(ev, item)), ([(d, 0)], none(ev))])
+    def exhausted(ci2):
+        # loop summaries over this iterator (mireval.seq_summary) are complete now: one group per item
+        for fr in ci2.st.frames.values():
+            for l, v in list(fr.items()):
+                if v[0] == "seq" and any(i[0] == "mapped" and i[2] == it for i in v[1]):
+                    fr[l] = ("seq", tuple(("mapped_all", i[1], i[2]) if (i[0] == "mapped" and i[2] == it) else i for i in v[1]))
+        return none(ci2.ev)
+    return ("fork", [(facts, some(ev, item)), ([(d, 0)], exhausted)])
+
+
+def m_find_map(ci):
+    """Generic-item semantics, like a `for` loop with an early return: (a) no item at all -> None; (b) f(item) is Some for
+    an item all of whose predecessors gave None -> that Some; (c) every item gave None -> None."""
+    ev = ci.ev
+    it = ci.deref(ci.args[0]) if ci.args[0][0] == "ref" else ci.args[0]
+    f = ci.args[1]
+    n = ci.st.aux.get("next_count", 0)
+    ci.st.aux["next_count"] = n + 2
+    site = ci.w.split(" ")[0]
+    item = ("item", it, site)
+    if it[0] == "iter" and it[1] == "slice_mut":
+        item = ("ref", ("val", ("proj", item, ("deref",)), ()), True)
+    d0 = ("app", "has_next", (it, mk_int(n, "usize")))
+    d1 = ("app", "has_next", (it, mk_int(n + 1, "usize")))
+
+    def settle(st, v):
+        """outcome of f on the generic item -> outcome of find_map"""
+        if v[0] == "adt" and v[3] == "Some":
+            st.emit(("widen", "find_map", (), site))          # any number of earlier items, all answered None
+            return v
+        if v[0] == "adt" and v[3] == "None":
+            st.decisions = st.decisions + ((d1, 0, ci.w),)
+            st.emit(("widen", "find_map", (), site))
+            return v
+        return None
+
+    def on_items(ci2):
+        r = apply_closure(ci2, f, [item], multi=lambda v: v)
+        if r is None:
+            return None
+        if isinstance(r, tuple) and r and r[0] == "multi":
+            out = []
+            for ps, kind, v in r[1]:
+                if kind == "return":
+                    v = settle(ps, v)
+                    if v is None:
+                        return None
+                out.append((ps, kind, v))
+            return ("multi", out)
+        return settle(ci2.st, r)
+    return ("fork", [([(d0, 0)], none(ev)), ([(d0, 1)], on_items)])
 
 
 def concrete_items(ci, it):
@@ -822,7 +1006,7 @@ def concrete_items(ci, it):
     return None
 
 
-def apply_closure(ci, f, args):
+def apply_closure(ci, f, args, multi=None):
     ev = ci.ev
     from mireval import Evaluator
     if f[0] == "closure":
@@ -876,24 +1060,34 @@ def apply_closure(ci, f, args):
         argv[0] = ("ref", ("val", f, ()), False)
     allp = sub.run_body(fn, body, argv, st=st2)
     paths = [p for p in allp if p.kind == "return"]
+    if multi is not None and allp and all(p.kind in ("return", "panic") for p in allp) and len(allp) > 1:
+        # a closure with several outcomes (e.g. `cond.then(|| self.receive())` where receive can fail): one
+        # continuation per outcome, each adopting that outcome's state
+        return ("multi", [(p.state, p.kind, (multi(sub.detach(p.state, p.value)) if p.kind == "return" else p.info)) for p in allp])
     if len(paths) != 1 or len(allp) != 1:
         return None
     ps = paths[0].state
     val = sub.detach(ps, paths[0].value)
+    if multi is not None:
+        val = multi(val)
     # the closure ran on a copy of the caller's state: adopt what it did (writes through captured references,
     # facts learned, effects emitted), so that side-effecting closures such as `cond.then(|| { self.x = ..; .. })` are not lost
-    st = ci.st
+    adopt_state(ci.st, ps)
+    return val
+
+
+def adopt_state(st, ps):
     for fid in list(st.frames.keys()):
         if fid in ps.frames:
             st.frames[fid] = ps.frames[fid]
     st.heap = ps.heap
     st.cons = ps.cons
     st.trace = st.trace + ps.trace
+    st.decisions = st.decisions + tuple(d for d in ps.decisions if d not in st.decisions)
     st.fresh = max(st.fresh, ps.fresh)
     st.next_fid = max(st.next_fid, ps.next_fid)
     for k_, v_ in ps.aux.items():
         st.aux[k_] = v_
-    return val
 
 
 def m_sum(ci):
